@@ -41,6 +41,34 @@ CHECKS = {
                      "independently written definition table (exact rational chains): every unit by symbolic index; scales bit-exact when the definition is a terminating decimal, 2 ulp / 1e-18 otherwise; "
                      "reference units have scale one; SI-prefix consistency shown on the table's rationals. Finite domain, decided completely by the solver.",
                 note="Trusted: Kani/CBMC, spec/catalogue.py (astronomical crate: the rationals stated in its own docs and IAU constants - weaker independence). One recorded known finding (Sideral_Day).", ref="7 C07"),
+    "C08": dict(engine="mirsmt+kani", technique="Kani/CBMC (SAT, all f64 bit patterns) for storage and unit preservation; MIR symbolic execution + z3 QF_UF for exactness of the scalar operators",
+                text="Bounded model checking. E1: for every unit (symbolic index) of the 14 catalogue types, a synthetic single-unit and a synthetic no-reference type and AmountT, and EVERY f64 bit pattern, "
+                     "new / amount*unit / unit*amount store amount and unit unchanged and k*q, q*k, q/k keep the unit; ONE has an empty symbol and scale one. E2: for every unit of every type in the MIR of both "
+                     "back-ends the amount of k*q, q*k, q/k is exactly the amount type's own product/quotient term.",
+                note="Trusted: Kani/CBMC; MIR executor; decimal storage is decided only by E2 (uninterpreted amounts).", ref="7 C08"),
+    "C09": dict(engine="kani", technique="Kani/CBMC bounded model checking over symbolic positions, indices, bounded strings and all f64 scale values",
+                text="Bounded model checking of the registry of the 14 catalogue types (f64 and decimal) and the 4 astronomical types: iteration yields exactly the declared units in the required order "
+                     "(symbolic position), every constant equals its variant, symbol lookups of every declared symbol return the first unit with it, lookups of EVERY UTF-8 string of <= 2 bytes are "
+                     "Some(matching unit) or None-with-no-match (types with <= 8 units in quick, <= 13 in thorough), from_scale/unit_from_scale return the first unit with that scale for EVERY f64, exactly one reference unit with scale one, as_qty is one of itself.",
+                note="Trusted: Kani/CBMC, the unit set of spec/catalogue.py; the order of equal-scale non-reference units is read from /repo's attribute lines. Strings longer than 2 bytes and decimal scale lookup are outside E1's claim.", ref="7 C09"),
+    "C10": dict(engine="kani+mirsmt", technique="Kani/CBMC (must-panic harnesses: single failing check at the documented panic site, return unreachable) + MIR symbolic execution with z3 QF_UF",
+                text="Bounded model checking on Temperature, a synthetic 3-unit no-reference type and a synthetic single-unit type, f64 (all bit patterns) and decimal (bounded coefficients): == iff same unit and amount, "
+                     "partial_cmp None across units, + - / of different units fail exactly at the documented panic! and never return, same units keep the unit; E2 re-decides the panic condition from the MIR and shows same-unit results are exactly the amount type's own operations.",
+                note="Trusted: Kani's modelling of panic! as a failing check at the macro site; decimal same-unit division is decided by E2 only (CBMC does not finish the 256-bit division).", ref="7 C10"),
+    "C13": dict(engine="mirsmt+kani", technique="MIR symbolic execution + z3 QF_NRA (three symbolic amounts) and QF_UF; Kani/CBMC for component storage",
+                text="Bounded model checking. E1: Rate::new / from_qty_vals / reciprocal store and swap the four components bit-identically for every f64 pattern and unit pair of four type combinations. "
+                     "E2: for the listed (term, per) type pairs and EVERY unit triple the solver shows for all amounts in the box that rate*q, q*rate carry the term unit and q/rate the per unit with amounts within "
+                     "tolerance of ta(v sv)/(pm sp) resp. pm(v sv)/(ta st); rate*q and q*rate, and q/rate and q*rate.reciprocal(), are the same terms.",
+                note="Trusted: as C01. Type pairs: quick 4, thorough 8 (listed in evidence bounds).", ref="7 C13"),
+    "C14": dict(engine="kani+mirsmt", technique="Kani/CBMC over all tables with <= 3 (4) rows with symbolic row units; MIR symbolic execution + z3 (QF_UF affine map, QF_LRA temperature formulas and round trips)",
+                text="Bounded model checking. E1: for every ConversionTable<Temperature,N>, N <= 3 (thorough 4), with all 2N row units, source and target unit symbolic: unchanged for the same unit, else the first entry "
+                     "for (from,to), else None. E2: the result amount is exactly fadd(fmul(a,f),o); the predefined temperature table covers all 9 ordered pairs, each within tolerance of the physical formula for all amounts in the box, and round trips return the original.",
+                note="Trusted: Kani/CBMC; MIR executor with the find_map/then summaries; the physical formulas in spec/catalogue.py.", ref="7 C14"),
+    "C18": dict(engine="kani+mirsmt", technique="Kani/CBMC panic-freedom on all f64 bit patterns with symbolic units; MIR symbolic execution + z3 QF_NRA overflow/zero-divisor side obligations for decimals, SAT models replayed natively",
+                text="Bounded model checking. f64: for every operation of C01-C05, C08, C13, C14 (13 types x 13 like-quantity operations, 34 derived operators x 4 operand forms, rates, temperature table) with symbolic units and "
+                     "UNCONSTRAINED f64 amounts no panic is reachable. decimal: at every Decimal operation on every path of convert/compare/+/-// and of the 34 derived operators, for every unit pair, the solver shows "
+                     "'divisor != 0 and |exact| < 1e20' for ALL amounts satisfying the property's magnitude precondition; a SAT answer is replayed natively with 18-digit decimals.",
+                note="Trusted: Kani/CBMC; fpdec's contract (panic only on zero divisor / unrepresentable result). Formatting operations are outside (C15 n/a). One recorded known finding (amount product before scale in derived operators).", ref="7 C18"),
     "C16": dict(engine="kani", technique="Kani/CBMC bounded model checking (SAT) over symbolic index / i8 / bounded strings",
                 text="Bounded model checking of the compiled SIPrefix code against the SI-brochure table: every iterated prefix (symbolic index), "
                      "from_exp for all 256 i8 values, from_abbr for every UTF-8 string up to 3 bytes (4 in thorough), pairwise distinctness. "
